@@ -25,7 +25,7 @@ FORMATS = {
     "requirements": {"level": "byte", "files": ["Formats/Requirements.v", "Formats/RequirementsProofs.v"],
                      "theorems": ["requirements_roundtrip_on_D", "requirements_roundtrip_refuted"], "full_spec": True,
                      "what": "requirements.txt (pinned name==version sub-grammar; full statement REFUTED for dotted / one-letter names, theorem on domain D, see KNOWN_FINDINGS.d/C03.json)"},
-    "gomodb": {"level": "byte", "files": ["Formats/GoModBytes.v", "Formats/GoModBytesProofs.v"], "theorems": ["gomod_bytes_roundtrip"], "modelled": True, "full_spec": True,
+    "gomodb": {"level": "byte", "files": ["Formats/GoModBytes.v", "Formats/GoModBytesProofs.v"], "theorems": ["gomod_bytes_roundtrip"], "modelled": True,
                "what": "go.mod from bytes (line-oriented sub-grammar of x/mod/modfile: lines, blocks, comments, CRLF; modfile's token "
                        "validation is an oracle table; quoted strings etc. are reported as not modelled)"},
     "composer": {"level": "struct", "files": ["Formats/Structs.v", "Formats/StructsProofs.v"], "theorems": ["composer_struct_exact"], "what": "composer.lock"},
@@ -35,7 +35,7 @@ FORMATS = {
     "pipfile": {"level": "struct", "files": [], "theorems": ["pipfile_struct_exact"], "what": "Pipfile.lock"},
     "packagelock": {"level": "struct", "files": ["Formats/Structs2.v", "Formats/Structs2Proofs.v"], "theorems": ["packagelock_struct_exact", "packagelock_v1_struct_exact"],
                     "what": "package-lock.json v1 (nested dependencies tree), v2, v3 (packages map); registry versions (aliases, file:, git: correspondence only)"},
-    "gomod": {"level": "struct", "files": [], "theorems": ["gomod_struct_exact", "gomod_replace_chain_refuted"], "full_spec": True,
+    "gomod": {"level": "struct", "files": [], "theorems": ["gomod_struct_exact"],
               "what": "go.mod (require, replace with/without version and local paths, go and toolchain directives; structure level: x/mod/modfile trusted)"},
 }
 ALL_FORMATS = ["dpkg status", "apk installed", "requirements.txt", "go.mod", "Cargo.lock", "package-lock.json v1-v3",
@@ -137,15 +137,6 @@ def explained_by(case, entry):
     names = [r["name"] for r in (case.get("claim") or {}).get("records") or []]
     if entry.get("cause") == "option-marker":
         return any(m in n for n in names for m in OPTION_MARKERS)
-    if entry.get("cause") == "versionless-chain":
-        claim = case.get("claim") or {}
-        reps = claim.get("replaces")
-        if reps is None:      # byte-level document: replace directives in document order
-            reps = []
-            for it in claim.get("items") or []:
-                ds = [it["line"]] if it.get("line") else [e["dir"] for e in it.get("entries") or [] if e.get("dir")]
-                reps += [d["r"] for d in ds if d.get("kind") == "replace"]
-        return any(not reps[j].get("old_version") and reps[i]["new"] == reps[j]["old"] for j in range(len(reps)) for i in range(j))
     if entry.get("cause") == "name-pattern":
         return any(not re.fullmatch(r"\w(\w|-)+", n, re.A) for n in names)
     return False
@@ -170,7 +161,7 @@ def replay_known(ctx, binp, entry):
         terms = ("[if %s_case_model_ok c then 1 else 0; if %s_case_full_spec_ok c then 1 else 0; if %s_case_wf_outside_D c then 1 else 0]%%nat"
                  % (fmt, fmt, fmt))
     else:
-        terms = "[if %s_case_model_ok c then 1 else 0; 1; 0]%%nat" % fmt
+        terms = "[if %s_case_model_ok c then 1 else 0; if %s_case_spec_ok c then 1 else 0; 0]%%nat" % (fmt, fmt)
     v = ("From Coq Require Import List NArith Bool.\nFrom Scalibr Require Import Formats.Lines %s.\nImport ListNotations.\n"
          "Definition c : %s_case := %s.\nDefinition flags := Eval vm_compute in %s.\nPrint flags.\n"
          % (mod[0][len("coq-module: "):], fmt, m[0][len("coq-case: "):], terms))
